@@ -99,6 +99,9 @@ def run_case(case):
                     got = tgspec.read_any(text, fmt)
                 except (tgspec.SpecError, ValueError) as e:
                     raise Violation(f"malformed:{fmt}", f"{what}: independent reader: {e}; text={text[:400]!r}")
+                if gen.min_gap(spec) >= 1e-6 and got != decoded[(fmt, True)]:
+                    # nothing in this textgrid is anywhere near the default threshold: the threshold must not matter
+                    raise Violation(f"default-threshold-changes-content:{fmt}", f"{what}: {got} != with the threshold disabled {decoded[(fmt, True)]}")
                 for t in got["tiers"]:
                     ents = t["entries"]
                     if t["class"] != "IntervalTier" or not ents:
@@ -152,6 +155,13 @@ def run_case(case):
 def cases(draw):
     clean = draw(st.integers(0, 4)) > 0
     spec = draw(gen.io_textgrid(clean=clean, token_rate=2))
+    if draw(st.integers(0, 3)) == 0:
+        # neighbouring intervals that touch and carry the same label are still separate intervals
+        for t in spec["tiers"]:
+            if t["type"] == "interval":
+                for x, y in zip(t["entries"], t["entries"][1:]):
+                    if x[1] == y[0] and draw(st.booleans()):
+                        y[2] = x[2]
     if draw(st.integers(0, 5)) == 0:
         # a tier name is text like any other: it may hold a line break (the independent reader decodes it)
         t = spec["tiers"][draw(st.integers(0, len(spec["tiers"]) - 1))]
